@@ -770,6 +770,51 @@ def work_aliased(chunk):
     return acc
 
 
+# -- an affine map plus a narrow feature away from x ---------------------------------------------------------
+# f(x) = A x + c exp(-((x_j - x0_j - d) / w)^2), d = +-2^-k, w = 2^-2k (at least 2^-8): value and every derivative of the
+# feature at x0 are below exp(-256), so the Jacobian at x0 is A.  Exactly one step of the default sequence (the
+# coordinates are at most 1 in magnitude, so the steps are 2, 1, 1/2, ... exactly) samples the feature: the rows built from
+# it are far off and carry large error estimates, every other row is exact and carries the smallest estimate.  Whatever
+# row is selected among those with the smallest estimate, the result is A to rounding.
+
+FAR_A = np.array([[2.0, -3.0, 0.5], [1.0, 4.0, -2.0]])
+FAR_C = np.array([1.0, -1.0])
+FAR_X0 = np.array([0.5, -0.25, 0.75])
+
+
+def work_far_feature(chunk):
+    import numdifftools as nd
+    acc = fw.Acc()
+    for method, order, k, j in chunk:
+        d = 2.0 ** -k * (-1.0 if method == 'backward' else 1.0)
+        w = 2.0 ** -max(2 * k, 8)
+
+        def f(t):
+            return np.dot(FAR_A, t) + FAR_C * np.exp(-((t[j] - FAR_X0[j] - d) / w) ** 2)
+
+        def g(t):
+            return f(t)[0]
+        for cls, fun, want in (('Jacobian', f, FAR_A), ('Gradient', g, FAR_A[0])):
+            status, val = call(lambda: getattr(nd, cls)(fun, method=method, order=order)(FAR_X0))
+            case = ('far-feature', method, order, k, j, cls)
+            jc = dict(part='far-feature', method=method, order=order, k=k, j=j, cls=cls)
+            if status != 'ok':
+                acc.case(case, nontrivial=True, cell='far-feature/%s' % method, outcome=status)
+                acc.violation('C03:%s:%s:far-feature' % (cls, status), jc, str(val), k)
+                continue
+            err = float(np.max(np.abs(np.asarray(val) - want))) if np.shape(val) == want.shape else float('inf')
+            ok = err <= 1e-6
+            acc.case(case, nontrivial=True, cell='far-feature/%s' % method, outcome=ok)
+            acc.maxi('far-feature/worst error over 1e-6', err / 1e-6)
+            if not ok:
+                acc.violation('C03:%s:envelope:%s:affine-plus-far-feature' % (cls, method), jc,
+                              '%s(f, method=%r, order=%d)(%r), f = A x + c exp(-((x_%d - x0_%d - (%g)) / %g)^2) (only the step '
+                              '%g of the default sequence samples the feature): max error %.3g > 1e-6; got %r, exact %r'
+                              % (cls, method, order, FAR_X0.tolist(), j, j, d, w, abs(d), err, np.asarray(val).tolist(),
+                                 want.tolist()), k)
+    return acc
+
+
 # -- functions with a limited domain ---------------------------------------------------------------------
 # f is differentiable at x but only defined on part of R^n (log, sqrt): the largest default steps leave the domain
 # in one direction, so SOME rows of SOME entries are NaN.  Those entries must still be resolved from their valid rows,
@@ -839,7 +884,7 @@ def required_cells(tier):
     req += ['ridge/g=%s' % g for g in ridge.FUNS] + ['ridge/h=%s' % g for g in ridge.FUNS]
     req += ['grad/form=%s' % f for f in GRAD_FORMS] + ['grad/size1', 'grad/size>1']
     req += ['grad/method=%s/order=%d' % (me, o) for me in METHODS for o in ORDERS]
-    req += ['outputs/readonly', 'outputs/memo']
+    req += ['outputs/readonly', 'outputs/memo'] + ['far-feature/%s' % me for me in ('central', 'forward', 'backward')]
     req += ['select/map=%s' % mname for mname in SELECT_MAPS] + ['jac/step_ratio=%r' % r for r in RATIOS]
     req += ['dd/v=%s' % v for v in V_KINDS] + ['dd/vform=%s' % f for f in V_FORMS]
     req += ['dd/method=%s/order=%d' % (me, o) for me in METHODS for o in ORDERS]
@@ -854,6 +899,8 @@ def run(ctx):
     acc = ctx.pmap(work, items, chunk=1, tier=ctx.tier)
     acc.merge(ctx.pmap(work_aliased, [(k, me, o, c) for k in (8, 16) for me in ('central', 'forward', 'backward') for o in ORDERS
                                       for c in ('zero-entry', 'ordinary')], chunk=3))
+    acc.merge(ctx.pmap(work_far_feature, [(me, o, k, j) for me in ('central', 'forward', 'backward') for o in ORDERS
+                                          for k in range(1, 13) for j in range(3)], chunk=6))
     acc.merge(ctx.pmap(work_partial_domain, [(x0, me, o) for x0 in (0.05, 0.3) for me in ('central', 'backward') for o in ORDERS], chunk=2))
     acc.merge(ctx.pmap(work_outputs, [(c, m, o) for c in ('Jacobian', 'Gradient') for m in METHODS for o in ORDERS], chunk=2))
     acc.merge(ctx.pmap(work_select, [(mname, p) for mname in SELECT_MAPS for p in ridge.POINT_KINDS], chunk=1, tier=ctx.tier))
@@ -917,6 +964,10 @@ def replay(case):
         a = work_partial_domain([(case['x0'], case['method'], int(case['order']))])
         bad = [r['detail'] for k, (n, recs) in a.viol.items() for r in recs]
         return not bad, '%r -> %s' % (case, bad or 'resolved')
+    if case.get('part') == 'far-feature':
+        a = work_far_feature([(case['method'], int(case['order']), int(case['k']), int(case['j']))])
+        bad = [r['detail'] for k, (n, recs) in a.viol.items() for r in recs if r['case'].get('cls') == case.get('cls')]
+        return not bad, '%r -> %s' % (case, bad or 'exact')
     if case.get('part') == 'aliased':
         a = work_aliased([(case['k'], case['method'], int(case['order']), case['companion'])])
         bad = [r['detail'] for k, (n, recs) in a.viol.items() for r in recs]
